@@ -11,7 +11,6 @@ import (
 	sdk "github.com/cosmos/cosmos-sdk/types"
 
 	chain "github.com/comdex-official/comdex/app"
-	"github.com/comdex-official/comdex/x/auctionsV2"
 	auctypes "github.com/comdex-official/comdex/x/auctionsV2/types"
 	liqtypes "github.com/comdex-official/comdex/x/liquidationsV2/types"
 	vaulttypes "github.com/comdex-official/comdex/x/vault/types"
@@ -60,6 +59,17 @@ func c10At(ctx sdk.Context, sec int64) sdk.Context {
 }
 
 func c10Unix(tm time.Time) int64 { return tm.Unix() - baseTime.Unix() }
+
+// the whole-percent discount of a Dutch auction's posted price against the oracle price in its record, as
+// LimitOrderBid computes it; ok = the posted price is below the oracle price
+func c10Discount(au auctypes.Auction) (sdk.Int, bool) {
+	if !au.AuctionType || au.CollateralTokenOraclePrice.IsNil() || au.CollateralTokenAuctionPrice.IsNil() ||
+		!au.CollateralTokenOraclePrice.GT(au.CollateralTokenAuctionPrice) {
+		return sdk.ZeroInt(), false
+	}
+	return au.CollateralTokenOraclePrice.Sub(au.CollateralTokenAuctionPrice).Quo(au.CollateralTokenOraclePrice).
+		Mul(sdk.NewDecFromInt(sdk.NewInt(100))).TruncateInt(), true
+}
 
 // ---------------------------------------------------------------------------------------------
 // workload 1: the price function, directly and through UpdateDutchAuction
@@ -171,10 +181,12 @@ type c10Auction struct {
 }
 
 type c10PlanOp struct {
-	kind                int // 0 bid, 1 tick, 2 start second
+	kind                int // 0 bid, 1 tick, 2 start second, 3 limit-bid deposit
 	who, class          int
 	f1, f2              int
 	dtClass, priceClass int
+	lit                 bool  // corpus cases: literal values instead of classes
+	v1, v2              int64 // lit: kind 0: amount = v1; kind 1: dt = v1, prices unchanged; kind 3: premium = v1, amount = v2
 }
 
 // everything that defines one TestC10 case
@@ -219,10 +231,12 @@ func c10Draw(r *rng) c10Case {
 	for i := range cs.plan {
 		x := r.intn(100)
 		switch {
-		case x < 55:
+		case x < 38:
 			cs.plan[i] = c10PlanOp{kind: 0, who: r.intn(3), class: r.intn(12), f1: 1 + r.intn(99), f2: 1 + r.intn(1000)}
-		case x < 90:
-			cs.plan[i] = c10PlanOp{kind: 1, dtClass: r.intn(9), priceClass: r.intn(20), f1: 70 + r.intn(60)}
+		case x < 56:
+			cs.plan[i] = c10PlanOp{kind: 3, who: r.intn(3), class: r.intn(8), f1: 1 + r.intn(99), f2: 1 + r.intn(1000)}
+		case x < 91:
+			cs.plan[i] = c10PlanOp{kind: 1, dtClass: r.intn(13), priceClass: r.intn(20), f1: 70 + r.intn(60)}
 		default:
 			cs.plan[i] = c10PlanOp{kind: 2}
 		}
@@ -240,6 +254,10 @@ func (cs c10Case) golit() string {
 	fmt.Fprintf(&sb, "kinds: %#v, twaC0: %d, twaD: %d, collUnits: %#v, crCreate: %#v, dropTo: %#v, extRatio: %#v, reserveClass: %d, plan: []c10PlanOp{",
 		cs.kinds, cs.twaC0, cs.twaD, cs.collUnits, cs.crCreate, cs.dropTo, cs.extRatio, cs.reserveClass)
 	for _, o := range cs.plan {
+		if o.lit {
+			fmt.Fprintf(&sb, "{kind: %d, who: %d, lit: true, v1: %d, v2: %d, f2: %d}, ", o.kind, o.who, o.v1, o.v2, o.f2)
+			continue
+		}
 		fmt.Fprintf(&sb, "{kind: %d, who: %d, class: %d, f1: %d, f2: %d, dtClass: %d, priceClass: %d}, ", o.kind, o.who, o.class, o.f1, o.f2, o.dtClass, o.priceClass)
 	}
 	sb.WriteString("}}")
@@ -261,6 +279,33 @@ var c10Corpus = []c10Case{
 	{p: c10Params{premium: c10Dec("1.2"), disc: c10Dec("0.7"), ki: c10Dec("0.1"), vaultPenalty: c10Dec("0.12"), extPenalty: c10Dec("0.1"), extBonus: c10Dec("0.05"), dur: 60, minUsd: 0, dc: 1000000, dd: 1000000},
 		kinds: [2]int{2, 2}, twaC0: 2000000, twaD: 1000000, collUnits: [2]int64{1000, 2500}, crCreate: [2]int64{200, 200}, dropTo: [2]int64{120, 120}, extRatio: [2]int64{60, 90}, reserveClass: 2,
 		plan: []c10PlanOp{{kind: 0, who: 0, class: 5, f1: 50, f2: 0}, {kind: 2}, {kind: 1, dtClass: 3, priceClass: 10, f1: 100}, {kind: 0, who: 1, class: 3, f1: 40, f2: 0}, {kind: 0, who: 1, class: 8, f1: 50, f2: 0}}},
+	// C10-F5 (fixed): external auction, target 1 120 000 (penalty 12 %), collateral 1 000 000, big reserve; a limit bid of
+	// 3 000 000 at discount 9 meets the block at t = 2940 s (price 0.906): the bid is cut down to 906 000, the reserve pays
+	// 214 000; the limit bid used to be charged 1 120 000 (Properties/C10.v:c10_fill_cut_down_regression)
+	{p: c10Params{premium: c10Dec("1.2"), disc: c10Dec("0.7"), ki: c10Dec("0"), vaultPenalty: c10Dec("0.12"), extPenalty: c10Dec("0.12"), extBonus: c10Dec("0"), dur: 3600, minUsd: 0, dc: 1000000, dd: 1000000},
+		kinds: [2]int{2, 2}, twaC0: 1000000, twaD: 1000000, collUnits: [2]int64{1000, 2000}, crCreate: [2]int64{200, 200}, dropTo: [2]int64{120, 120}, extRatio: [2]int64{100, 50}, reserveClass: 2,
+		plan: []c10PlanOp{{kind: 3, who: 0, lit: true, v1: 9, v2: 3000000}, {kind: 1, lit: true, v1: 2940}, {kind: 1, lit: true, v1: 1}, {kind: 1, lit: true, v1: 100}}},
+	// C10-F6 (fixed): debt 500 003, collateral 1 000 006; limit bids of 1 and 999 at discount 5 are filled in one closure at
+	// t = 2550 s (price 0.945): the second bid used to overwrite the first one's auction update; then a limit bid of the
+	// remaining debt closes the auction at discount 6 (Properties/C10.v:c10_fill_two_partials_regression)
+	{p: c10Params{premium: c10Dec("1.2"), disc: c10Dec("0.7"), ki: c10Dec("0"), vaultPenalty: c10Dec("0.12"), extPenalty: c10Dec("0"), extBonus: c10Dec("0"), dur: 3600, minUsd: 0, dc: 1000000, dd: 1000000},
+		kinds: [2]int{2, 2}, twaC0: 1000000, twaD: 1000000, collUnits: [2]int64{1000, 2000}, crCreate: [2]int64{200, 200}, dropTo: [2]int64{120, 120}, extRatio: [2]int64{50, 50}, reserveClass: 2,
+		plan: []c10PlanOp{{kind: 3, who: 0, lit: true, v1: 5, v2: 1}, {kind: 3, who: 1, lit: true, v1: 5, v2: 999}, {kind: 1, lit: true, v1: 2550},
+			{kind: 3, who: 0, lit: true, v1: 6, v2: 499000}, {kind: 1, lit: true, v1: 100}, {kind: 0, who: 1, class: 8, f1: 50, f2: 0}}},
+	// C10-F6, liveness half (fixed): debt 500 000, collateral 1 000 000; limit bids of 3 000 000 and 250 000 at discount 5:
+	// the first closes the auction, the second used to fail on the stale copy and roll the closure back on every block
+	// (Properties/C10.v:c10_fill_closing_first_regression); the second auction then takes the rest
+	{p: c10Params{premium: c10Dec("1.2"), disc: c10Dec("0.7"), ki: c10Dec("0.1"), vaultPenalty: c10Dec("0.12"), extPenalty: c10Dec("0.1"), extBonus: c10Dec("0.05"), dur: 3600, minUsd: 0, dc: 1000000, dd: 1000000},
+		kinds: [2]int{2, 2}, twaC0: 1000000, twaD: 1000000, collUnits: [2]int64{1000, 2000}, crCreate: [2]int64{200, 200}, dropTo: [2]int64{120, 120}, extRatio: [2]int64{50, 50}, reserveClass: 2,
+		plan: []c10PlanOp{{kind: 3, who: 0, lit: true, v1: 5, v2: 3000000}, {kind: 3, who: 1, lit: true, v1: 5, v2: 250000}, {kind: 1, lit: true, v1: 2550},
+			{kind: 1, lit: true, v1: 10}, {kind: 2}, {kind: 1, lit: true, v1: 2550}, {kind: 1, lit: true, v1: 50}}},
+	// vault auction liquidated through MsgLiquidateInternalKeeper, keeper incentive 10 %: a market bid, a limit bid filled
+	// partially, a closing market bid - the penalty 120 000 is split 12 000 keeper / 108 000 collector and the net-fee book
+	// grows by 108 000 (regression of seeded/C13-3: booking the gross penalty)
+	{p: c10Params{premium: c10Dec("1.2"), disc: c10Dec("0.7"), ki: c10Dec("0.1"), vaultPenalty: c10Dec("0.12"), extPenalty: c10Dec("0.1"), extBonus: c10Dec("0"), dur: 3600, minUsd: 100000, dc: 1000000, dd: 1000000},
+		kinds: [2]int{0, 0}, twaC0: 2000000, twaD: 1000000, collUnits: [2]int64{1000, 1500}, crCreate: [2]int64{200, 200}, dropTo: [2]int64{120, 125}, extRatio: [2]int64{50, 50}, reserveClass: 2,
+		plan: []c10PlanOp{{kind: 3, who: 1, lit: true, v1: 4, v2: 300000}, {kind: 0, who: 0, lit: true, v1: 400000}, {kind: 1, lit: true, v1: 2400},
+			{kind: 1, lit: true, v1: 20}, {kind: 0, who: 0, lit: true, v1: 9999999}, {kind: 2}, {kind: 0, who: 2, class: 8, f1: 50, f2: 0}, {kind: 0, who: 0, class: 8, f1: 50, f2: 0}}},
 }
 
 func TestC10(t *testing.T) {
@@ -275,7 +320,6 @@ func TestC10(t *testing.T) {
 	bidders := []sdk.AccAddress{addrN(10), addrN(11), addrN(12)}
 	owners := []sdk.AccAddress{addrN(20), addrN(21)}
 	liquidator, initiator, funder := addrN(30), addrN(31), addrN(32)
-	null := sdk.AccAddress{}
 
 	for ci := 0; ci < ncases; ci++ {
 		// ---- draw every random parameter of the case first (corpus cases consume no randomness)
@@ -351,61 +395,24 @@ func TestC10(t *testing.T) {
 			}
 			execMsg(a, ctx, liqtypes.NewMsgAppReserveFundsRequest(funder.String(), f.app, f.assetD, sdk.NewCoin(f.denomD, amt)))
 		}
-		supply0 := supply(a, ctx, f.denomD)
 
-		tr.p("case %d %s %s %d %d %s %d %d", ci, p.premium.BigInt(), p.disc.BigInt(), p.dur, p.minUsd, p.ki.BigInt(), p.dc, p.dd)
-
-		now := int64(0)
-		twaC, twaDcur := twaC0, twaD
-		actC, actD := true, true
-		var live []c10Auction
-
-		observe := func() {
-			c := c10At(ctx, now)
-			ownC := sdk.ZeroInt()
-			for _, o := range owners {
-				ownC = ownC.Add(bal(a, c, o, f.denomC))
-			}
-			rs, rfound := a.NewliqKeeper.GetAppReserveFunds(c, f.app, f.assetD)
-			rsAmt := sdk.ZeroInt()
-			if rfound {
-				rsAmt = rs.TokenQuantity.Amount
-			}
-			xf, xfound := a.NewaucKeeper.GetAuctionLimitBidFeeDataExternal(c, f.assetD)
-			xfAmt := sdk.ZeroInt()
-			if xfound {
-				xfAmt = xf.Amount
-			}
-			var sb strings.Builder
-			for _, b := range bidders {
-				fmt.Fprintf(&sb, " %s %s", bal(a, c, b, f.denomC), bal(a, c, b, f.denomD))
-			}
-			tr.p("L %s %s %s %s %s %s %s %s %s 0%s %s %s %s",
-				bal(a, c, modAddr(auctypes.ModuleName), f.denomC), bal(a, c, modAddr(auctypes.ModuleName), f.denomD), ownC,
-				bal(a, c, modAddr("collectorV1"), f.denomD), bal(a, c, liquidator, f.denomD), bal(a, c, initiator, f.denomD),
-				bal(a, c, null, f.denomD), bal(a, c, modAddr(liqtypes.ModuleName), f.denomD), supply0.Sub(supply(a, c, f.denomD)),
-				sb.String(), b2s(rfound), rsAmt, xfAmt)
-			for _, au := range a.NewaucKeeper.GetAuctions(c) {
-				tr.p("A %d %s %s %s %s %s %s %s %d %d", au.AuctionId, au.CollateralToken.Amount, au.DebtToken.Amount, au.BonusAmount,
-					au.CollateralTokenAuctionPrice.BigInt(), au.CollateralTokenInitialPrice.BigInt(), au.CollateralTokenOraclePrice.BigInt(),
-					au.DebtTokenOraclePrice.BigInt(), c10Unix(au.StartTime), c10Unix(au.EndTime))
-			}
-			tr.p("E")
-		}
+		e := &c10Run{t: t, a: a, ctx: ctx, tr: tr, p: p, app: f.app, assetC: f.assetC, assetD: f.assetD, denomC: f.denomC, denomD: f.denomD,
+			bidders: bidders, owners: owners, liquidator: liquidator, initiator: initiator, twaC: twaC0, twaDcur: twaD, actC: true, actD: true, debug: debug}
+		e.begin(ci)
 
 		start := func(i int) {
 			if ps[i].started || !ps[i].valid {
 				return
 			}
 			ps[i].started = true
-			c := c10At(ctx, now)
+			c := c10At(ctx, e.now)
 			before := a.NewaucKeeper.GetAuctionID(c)
 			var class string
 			switch ps[i].kind {
 			case 0, 1:
 				// the collateral price falls; the position becomes liquidatable
-				twaC = ps[i].dropPrice
-				setPrice(a, c, f.assetC, twaC, actC)
+				e.twaC = ps[i].dropPrice
+				setPrice(a, c, f.assetC, e.twaC, e.actC)
 				if ps[i].kind == 0 {
 					class, _, _ = execMsg(a, c, liqtypes.NewMsgLiquidateInternalKeeperRequest(liquidator, 0, ps[i].vaultID))
 				} else {
@@ -427,133 +434,24 @@ func TestC10(t *testing.T) {
 			}
 			after := a.NewaucKeeper.GetAuctionID(c)
 			if class == "ok" && after == before+1 {
-				au, _ := a.NewaucKeeper.GetAuction(c, after)
-				lk, _ := a.NewliqKeeper.GetLockedVault(c, f.app, au.LockedVaultId)
-				it := map[string]int{"vault": 0, "lend": 1, "external": 2}[lk.InitiatorType]
-				tr.p("op start %d %s %s %s %s %d %s %s %d %s %d %s %d ok", after, lk.CollateralToken.Amount, lk.TargetDebt.Amount, lk.FeeToBeCollected,
-					lk.BonusToBeGiven, it, b2s(lk.IsInternalKeeper), b2s(lk.IsDebtCmst), now, b2s(actC), twaC, b2s(actD), twaDcur)
-				live = append(live, c10Auction{after, au.LockedVaultId})
+				e.emitStart(after)
 			} else {
-				tr.p("op nostart %d %s %d %s %d %s %d %s", ps[i].kind, class, now, b2s(actC), twaC, b2s(actD), twaDcur, b2s(after != before))
+				tr.p("op nostart %d %s %d %s %d %s %d %s", ps[i].kind, class, e.now, b2s(e.actC), e.twaC, b2s(e.actD), e.twaDcur, b2s(after != before))
 			}
-			observe()
+			e.observe()
 		}
 
 		start(0)
 		for _, o := range plan {
-			c := c10At(ctx, now)
 			switch o.kind {
 			case 2:
 				start(1)
 			case 1:
-				// time advances, prices may change, then the auctionsV2 BeginBlocker runs
-				var dt int64
-				switch o.dtClass {
-				case 0:
-					dt = 0
-				case 1:
-					dt = 1
-				case 2:
-					dt = 5
-				case 3:
-					dt = int64(p.dur) / 4
-				case 4:
-					dt = int64(p.dur) / 2
-				case 5, 6: // exactly to the end time of the oldest live auction (t = D), or one past it
-					aus := a.NewaucKeeper.GetAuctions(c)
-					if len(aus) > 0 {
-						dt = c10Unix(aus[0].EndTime) - now
-						if o.dtClass == 6 {
-							dt++
-						}
-						if dt < 0 {
-							dt = 0
-						}
-					}
-				case 7:
-					dt = 2*int64(p.dur) + 1
-				default:
-					dt = int64(1 + o.f1%7)
-				}
-				now += dt
-				switch {
-				case o.priceClass == 0:
-					actC = !actC
-				case o.priceClass == 1:
-					actD = !actD
-				case o.priceClass <= 4:
-					twaC = twaC * uint64(o.f1) / 100
-					if twaC == 0 {
-						twaC = 1
-					}
-				case o.priceClass == 5:
-					twaDcur = twaDcur * uint64(o.f1) / 100
-					if twaDcur == 0 {
-						twaDcur = 1
-					}
-				case o.priceClass <= 7:
-					actC, actD = true, true
-				}
-				c = c10At(ctx, now)
-				setPrice(a, c, f.assetC, twaC, actC)
-				setPrice(a, c, f.assetD, twaDcur, actD)
-				pn, _ := safely(func() { auctionsV2.BeginBlocker(c, a.NewaucKeeper) })
-				class := "ok"
-				if pn {
-					class = "panic"
-				}
-				tr.p("op tick %d %s %d %s %d %s", now, b2s(actC), twaC, b2s(actD), twaDcur, class)
-				observe()
+				e.tick(o)
+			case 3:
+				e.deposit(o)
 			case 0:
-				aus := a.NewaucKeeper.GetAuctions(c)
-				var aid uint64 = 77
-				remaining := sdk.NewInt(1000000)
-				var target *auctypes.Auction
-				if len(aus) > 0 {
-					target = &aus[o.f2%len(aus)]
-					aid = target.AuctionId
-					remaining = target.DebtToken.Amount
-				}
-				var amt sdk.Int
-				denom := f.denomD
-				switch o.class {
-				case 0:
-					amt = sdk.NewInt(1)
-				case 1:
-					amt = sdk.NewInt(int64(o.f2))
-				case 2, 3, 4:
-					amt = remaining.MulRaw(int64(o.f1)).QuoRaw(100)
-				case 5:
-					amt = remaining
-				case 6:
-					amt = remaining.SubRaw(1)
-				case 7:
-					amt = remaining.AddRaw(1)
-				case 8:
-					amt = remaining.MulRaw(3)
-				case 9: // leaves dust
-					amt = remaining.Sub(sdk.NewInt(p.dd).MulRaw(int64(o.f1)).QuoRaw(1000))
-				case 10:
-					amt = remaining.MulRaw(int64(o.f1)).QuoRaw(100)
-					if o.f1%5 == 0 {
-						denom = f.denomC
-					} else if o.f1%5 == 1 {
-						amt = sdk.ZeroInt()
-					}
-				default:
-					amt = remaining.MulRaw(int64(o.f1)).QuoRaw(200)
-				}
-				if amt.IsNegative() {
-					amt = sdk.NewInt(1)
-				}
-				msg := &auctypes.MsgPlaceMarketBidRequest{AuctionId: aid, Bidder: bidders[o.who].String(), Amount: sdk.Coin{Denom: denom, Amount: amt}}
-				class, berr, _ := execMsg(a, c, msg)
-				if debug && berr != nil {
-					tr.p("# %s", strings.ReplaceAll(berr.Error(), "\n", " "))
-				}
-				tw, twFound := a.MarketKeeper.GetTwa(c, f.assetD)
-				tr.p("op bid %d %d %s %s %d %s %s", aid, o.who, amt, b2s(denom != f.denomD), tw.Twa, b2s(twFound && tw.IsPriceActive), class)
-				observe()
+				e.bid(o)
 			}
 		}
 	}
